@@ -1,9 +1,124 @@
 """Rules about comparison code shared by C02 / C08 / C13."""
-from .. import sym, tables
+from .. import sym, tables, evalx
 from ..norm import n, P, C, V, ANY, match, call, binop, idx, table, find_all
-from . import common
+from . import common, cfgdiff
 
 RING = "compare::utils::distance_on_ring_mod"
+
+
+# ---------------------------------------------------------------- full-domain evaluation of the small distance functions
+#
+# Each of these functions has a domain of at most 2^16 argument pairs.  Their MIR decision trees are evaluated (evalx) on the
+# whole domain and compared with the reference definitions, so any equivalent way of writing them is accepted and any
+# different function is reported with a witness.  Callees are replaced by their reference functions once the callee itself
+# has been decided the same way (bottom-up: ring distance, then the sub-distances, then the sums).
+
+def ring_ref(x, y, m):
+    mod = 256 if m == 0 else m
+    d = (x - y) % mod
+    return min(d, mod - d)
+
+
+def qsub_ref(a, b2):
+    d = ring_ref(a, b2, 16)
+    return d if d <= 1 else (d - 1) * 12
+
+
+def qdist_ref(q1, q2):
+    return qsub_ref(q1 & 15, q2 & 15) + qsub_ref(q1 >> 4, q2 >> 4)
+
+
+def ldist_ref(l1, l2):
+    d = ring_ref(l1, l2, 0)
+    return d if d <= 1 else d * 12
+
+
+_SEM = {}
+_REF_CALLS = {
+    RING: ring_ref,
+    "compare::dist_qratios::naive::sub_distance": qsub_ref,
+    "compare::dist_qratios::naive::distance": qdist_ref,
+    "compare::dist_length::naive::distance": ldist_ref,
+}
+
+
+def _tabs_for(F):
+    cache = {}
+
+    def tabs(path):
+        if path not in cache:
+            c = F.consts.get(path)
+            v = None
+            if c:
+                t = F.ty(c["ty"])
+                if t["k"] == "array":
+                    et = F.ty(t["elem"])
+                    if et["k"] == "array":
+                        es = {"u8": 1, "u16": 2, "u32": 4}.get(F.tys(et["elem"]))
+                        v = F.const_array(path, es) if es else None
+                    else:
+                        es = {"u8": 1, "u16": 2, "u32": 4, "usize": F.usize_bytes}.get(F.tys(t["elem"]))
+                        v = F.const_array(path, es) if es else None
+            cache[path] = v
+        return cache[path]
+
+    return tabs
+
+
+def _dims(F):
+    out = {}
+    for path, c in F.consts.items():
+        t = F.ty(c["ty"])
+        if t["k"] == "array":
+            et = F.ty(t["elem"])
+            if et["k"] == "array" and t["len"].get("k") == "val" and et["len"].get("k") == "val":
+                out[path] = (t["len"]["v"], et["len"]["v"])
+    return out
+
+
+def full_domain(ctx, r, F, path, key, domain, ref, what, args3=None):
+    """decide function `path` on `domain` (iterable of argument tuples) against ref(*args)"""
+    b = F.fn(path)
+    ctx.instance(r)
+    if b is None:
+        ctx.missing(r, path, cfg=F.key)
+        return
+    evalx.set_target(F)
+    tabs = _tabs_for(F)
+    used = sorted({x[1] for p in sym.Sym(b).paths() for e in [p.ret] + [d for (_, d, _, _) in p.conds] if e for x in find_all(e, lambda y: y[0] == "table")})
+    sig = (path, cfgdiff.body_sig(F, b), tuple((t, hash(tuple(tabs(t) or ()))) for t in used), F.usize_bytes)
+    if sig not in _SEM:
+        S = sym.Sym(b)
+        paths = S.paths()
+        calls = {k: v for k, v in _REF_CALLS.items() if k != path}
+        dims = _dims(F)
+        why = None
+        nbad = 0
+        n_eval = 0
+        try:
+            for args in domain:
+                n_eval += 1
+                try:
+                    got = evalx.run(S, F, paths, {"params": {i + 1: a for i, a in enumerate(args)}, "calls": calls, "dims": dims}, tabs)
+                except evalx.Panics as ex:
+                    got = "panic (%s)" % ex
+                want = ref(*args)
+                if got != want:
+                    nbad += 1
+                    if why is None:
+                        why = "%s%s gives %s; reference %s" % (path.rsplit("::", 1)[-1], tuple(args), got, want)
+        except evalx.Unknown as ex:
+            why = "cannot evaluate: %s" % ex
+        if why and nbad > 1:
+            why += " (%d of %d arguments differ)" % (nbad, n_eval)
+        _SEM[sig] = (why, n_eval)
+    why, n_eval = _SEM[sig]
+    ctx.ob(r, key, why is None, "%s: %s; reference %s on its whole domain" % (path, why, what), cfg=F.key, where=b.where(), detail={"arguments_evaluated": n_eval})
+
+
+BYTES2 = [(a, b2) for a in range(256) for b2 in range(256)]
+NIBBLES2 = [(a, b2) for a in range(16) for b2 in range(16)]
+RING_DOMAIN = [(a, b2, 16) for a in range(16) for b2 in range(16)] + [(a, b2, 0) for a in range(256) for b2 in range(256)]
 
 
 def ret_paths(b):
@@ -47,99 +162,25 @@ def decision(b, ignore_diverging=True):
 
 def qratio_distance(ctx, r, F):
     qt = tables.qdist_tables(ctx, r, F)
-    b, got = single_ret(F, "compare::dist_qratios::distance")
-    ctx.instance(r)
-    if b is None:
-        ctx.missing(r, "compare::dist_qratios::distance", cfg=F.key)
-        return qt
-    if "opt-dist-qratios-table-double" in F.features:
-        T = table("compare::dist_qratios::QDIST_VALUE_2")
-        want = [idx(idx(T, P(1)), P(2)), idx(idx(T, P(2)), P(1))]
-        what = "QDIST_VALUE_2[q1][q2]"
-    elif "opt-dist-qratios-table" in F.features:
-        T = table("compare::dist_qratios::QDIST_VALUE")
-        lo = lambda p: binop("BitAnd", C(15), P(p))
-        hi = lambda p: ("bin", "Shr", P(p), C(4))
-        a = idx(idx(T, lo(1)), lo(2))
-        bb = idx(idx(T, hi(1)), hi(2))
-        a2 = idx(idx(T, lo(2)), lo(1))
-        b2 = idx(idx(T, hi(2)), hi(1))
-        want = [binop("Add", x, y) for x in (a, a2) for y in (bb, b2)]
-        what = "QDIST_VALUE[lo1][lo2] + QDIST_VALUE[hi1][hi2]"
-    else:
-        want = [call("compare::dist_qratios::naive::distance", P(1), P(2)), call("compare::dist_qratios::naive::distance", P(2), P(1))]
-        what = "naive::distance(q1,q2)"
-    ctx.ob(r, ("dist_qratios::distance", "index-shape"), got in want,
-           "dist_qratios::distance computes %s; reference %s" % (sym.fmt(got) if got else got, what), cfg=F.key, where=b.where())
+    # the run-time entry point, whatever table configuration it uses
+    full_domain(ctx, r, F, "compare::dist_qratios::distance", ("dist_qratios::distance", "index-shape"), BYTES2, qdist_ref,
+                "sub(lo1,lo2) + sub(hi1,hi2), sub = ring distance mod 16 with d<=1 ? d : (d-1)*12")
     naive_qratio(ctx, r, F)
     return qt
 
 
 def naive_qratio(ctx, r, F):
-    """naive::distance / naive::sub_distance shapes (these are what the table initialisers call and
-    what table-less configurations run)."""
-    b, got = single_ret(F, "compare::dist_qratios::naive::distance")
-    if b is not None:
-        SD = "compare::dist_qratios::naive::sub_distance"
-        lo = lambda p: binop("BitAnd", C(15), P(p))
-        hi = lambda p: ("bin", "Shr", P(p), C(4))
-        ts = sorted(map(repr, terms(got))) if got else None
-        wants = [sorted(map(repr, [call(SD, lo(a), lo(b2)), call(SD, hi(a), hi(b2))])) for a, b2 in ((1, 2), (2, 1))]
-        ctx.instance(r)
-        ctx.ob(r, ("dist_qratios::naive::distance", "shape"), ts in wants,
-               "naive::distance computes %s; reference sub(lo1,lo2)+sub(hi1,hi2)" % (sym.fmt(got) if got else got), cfg=F.key, where=b.where())
-    b = F.fn("compare::dist_qratios::naive::sub_distance")
-    ctx.instance(r)
-    if b is None:
-        ctx.missing(r, "compare::dist_qratios::naive::sub_distance", cfg=F.key)
-        return
-    ring_rule(ctx, r, F, b, "dist_qratios::naive::sub_distance", 16, minus_one=True)
-
-
-def ring_rule(ctx, r, F, b, name, modulus, minus_one):
-    """d = ring(p1,p2,modulus); d <= 1 -> d ; else (d-1)*12 or d*12."""
-    dec = decision(b)
-    d1 = call(RING, P(1), P(2), C(modulus))
-    d2 = call(RING, P(2), P(1), C(modulus))
-    ok = False
-    for d in (d1, d2):
-        small = binop("Le", d, C(1))
-        body = binop("Mul", ("bin", "Sub", d, C(1)) if minus_one else d, C(12))
-        want = sorted([repr(([(small, True)], d)), repr(([(small, False)], body))])
-        got = sorted(repr((cs, ret)) for cs, ret in dec)
-        if got == want:
-            ok = True
-    ctx.ob(r, (name, "rule"), ok,
-           "%s is %s; reference d=ring_mod_%d(a,b); d<=1 ? d : %s*12" % (
-               name, [([(sym.fmt(c), t) for c, t in cs], sym.fmt(ret)) for cs, ret in dec], modulus, "(d-1)" if minus_one else "d"),
-           cfg=F.key, where=b.where())
+    """naive::distance / naive::sub_distance (what the table initialisers call and what table-less configurations run)."""
+    if F.fn("compare::dist_qratios::naive::distance") is not None:
+        full_domain(ctx, r, F, "compare::dist_qratios::naive::distance", ("dist_qratios::naive::distance", "shape"), BYTES2, qdist_ref,
+                    "sub(lo1,lo2) + sub(hi1,hi2)")
+    full_domain(ctx, r, F, "compare::dist_qratios::naive::sub_distance", ("dist_qratios::naive::sub_distance", "rule"), NIBBLES2, qsub_ref,
+                "d = ring distance mod 16; d <= 1 ? d : (d-1)*12")
 
 
 def ring_shape(ctx, r, F):
-    """distance_on_ring_mod: min(dl, dr) with the reference wrapping expressions."""
-    b = F.fn(RING)
-    ctx.instance(r)
-    if b is None:
-        ctx.missing(r, RING, cfg=F.key)
-        return
-    ws = lambda a, c: call("core::num::<impl u8>::wrapping_sub", a, c)
-    wa = lambda a, c: call("core::num::<impl u8>::wrapping_add", a, c)
-    x, y, m = P(1), P(2), P(3)
-    ge = binop("Le", y, x)  # x >= y
-    A_dl, A_dr = ws(x, y), ws(wa(y, m), x)
-    B_dl, B_dr = ws(wa(x, m), y), ws(y, x)
-    want = set()
-    for cond_truth, dl, dr in ((True, A_dl, A_dr), (False, B_dl, B_dr)):
-        le = binop("Le", dl, dr)
-        want.add(repr((((ge, cond_truth), (le, True)), dl)))
-        want.add(repr((((ge, cond_truth), (le, False)), dr)))
-    got = set()
-    for cs, ret in decision(b):
-        # drop the debug_assert conditions (n == 0 || x < n)
-        core = tuple((c, t) for c, t in cs if not (c[0] == "bin" and (c[1] == "Eq" and C(0) in (c[2], c[3]) or (c[1] == "Lt" and c[3] == m))))
-        got.add(repr((core, ret)))
-    ctx.ob(r, ("distance_on_ring_mod", "shape"), got == want,
-           "distance_on_ring_mod does not have the reference shape min(x-y, y+n-x) / min(x+n-y, y-x) (wrapping)", cfg=F.key, where=b.where())
+    """distance_on_ring_mod(x, y, n) = min((x-y) mod m, (y-x) mod m), m = n or 256 for n = 0 (on the two moduli the crate uses)."""
+    full_domain(ctx, r, F, RING, ("distance_on_ring_mod", "shape"), RING_DOMAIN, ring_ref, "the ring distance for n = 16 (arguments < 16) and n = 0 (mod 256)")
 
 
 # ---------------------------------------------------------------- length
@@ -147,29 +188,69 @@ def ring_shape(ctx, r, F):
 
 def length_distance(ctx, r, F):
     lt = tables.ldist_table(ctx, r, F)
-    b, got = single_ret(F, "compare::dist_length::distance")
-    ctx.instance(r)
-    if b is None:
-        ctx.missing(r, "compare::dist_length::distance", cfg=F.key)
-        return lt
-    if "opt-dist-length-table" in F.features:
-        T = table("compare::dist_length::LDIST_VALUE")
-        ws = lambda a, c: call("core::num::<impl u8>::wrapping_sub", P(a), P(c))
-        want = [idx(T, ws(1, 2)), idx(T, ws(2, 1))]
-        what = "LDIST_VALUE[l1 wrapping_sub l2]"
-    else:
-        want = [call("compare::dist_length::naive::distance", P(1), P(2)), call("compare::dist_length::naive::distance", P(2), P(1))]
-        what = "naive::distance(l1,l2)"
-    ctx.ob(r, ("dist_length::distance", "index-shape"), got in want,
-           "dist_length::distance computes %s; reference %s" % (sym.fmt(got) if got else got, what), cfg=F.key, where=b.where())
-    nb = F.fn("compare::dist_length::naive::distance")
-    if nb is not None:
-        ctx.instance(r)
-        ring_rule(ctx, r, F, nb, "dist_length::naive::distance", 0, minus_one=False)
+    full_domain(ctx, r, F, "compare::dist_length::distance", ("dist_length::distance", "index-shape"), BYTES2, ldist_ref,
+                "d = ring distance mod 256; d <= 1 ? d : d*12")
+    if F.fn("compare::dist_length::naive::distance") is not None:
+        full_domain(ctx, r, F, "compare::dist_length::naive::distance", ("dist_length::naive::distance", "rule"), BYTES2, ldist_ref,
+                    "d = ring distance mod 256; d <= 1 ? d : d*12")
     return lt
 
 
 # ---------------------------------------------------------------- checksum
+
+
+def _bool_function_count(F, b, nbytes):
+    """For a loop-free function over (c1: &[u8; N], c2: &[u8; N]) whose only use of the bytes is in `c1[i] != c2[i]` / `==` comparisons
+    of equal positions: evaluate it on the 2^N assignments of those comparisons (an exact abstract domain for such a function) and
+    compare with the number of unequal positions.  Returns None if it is that count, else a description."""
+    S = sym.Sym(b)
+    paths = S.paths()
+    if any(p.end == "loop" for p in paths):
+        return "contains a loop"
+    forms = lambda p_, i: (("load", ("index", ("deref", P(p_)), C(i))), ("index", P(p_), C(i)), ("load", ("index", P(p_), C(i))))
+    cmp_nodes = {}
+    exprs = []
+    for p in paths:
+        exprs += [d for (_, d, _, _) in p.conds]
+        if p.ret is not None:
+            exprs.append(p.ret)
+    for e in exprs:
+        ne = n(e)
+        for x in find_all(ne, lambda y: y[0] == "bin" and y[1] in ("Eq", "Ne")):
+            for i in range(nbytes):
+                if (x[2] in forms(1, i) and x[3] in forms(2, i)) or (x[2] in forms(2, i) and x[3] in forms(1, i)):
+                    cmp_nodes[x] = (i, x[1])
+    if not cmp_nodes:
+        return "no comparison of equal positions found"
+
+    def strip(x):
+        if x in cmp_nodes:
+            return ("const", 0)
+        if isinstance(x, tuple):
+            return tuple(strip(y) if isinstance(y, tuple) else y for y in x)
+        return x
+
+    for e in exprs:
+        rest = strip(n(e))
+        if find_all(rest, lambda y: y in (P(1), P(2))):
+            return "a checksum byte is used outside a same-position comparison: %s" % sym.fmt(rest)[:80]
+    positions = sorted({i for i, _ in cmp_nodes.values()})
+    if positions != list(range(nbytes)):
+        return "positions compared: %s; reference all of 0..%d" % (positions, nbytes)
+    evalx.set_target(F)
+    for mask in range(1 << nbytes):
+        sub = {}
+        for node, (i, op) in cmp_nodes.items():
+            differs = (mask >> i) & 1
+            sub[node] = differs if op == "Ne" else 1 - differs
+        try:
+            got = evalx.run(S, F, paths, {"subst": sub})
+        except (evalx.Unknown, evalx.Panics) as ex:
+            return "cannot evaluate: %s" % ex
+        want = bin(mask).count("1")
+        if got != want:
+            return "with positions %s unequal the result is %s; reference %d" % ([i for i in range(nbytes) if (mask >> i) & 1], got, want)
+    return None
 
 
 def checksum_distance(ctx, r, F):
@@ -181,7 +262,8 @@ def checksum_distance(ctx, r, F):
         ne = [binop("Ne", idx(P(1), C(0)), idx(P(2), C(0)))]
         got = sorted(repr(x) for x in decision(b))
         want = sorted(repr(x) for x in [([(ne[0], True)], C(1)), ([(ne[0], False)], C(0))])
-        ctx.ob(r, ("distance_1", "shape"), got == want, "distance_1 is not `c1[0] != c2[0] ? 1 : 0`", cfg=F.key, where=b.where())
+        why1 = None if got == want else _bool_function_count(F, b, 1)
+        ctx.ob(r, ("distance_1", "shape"), why1 is None, "distance_1 is not `c1[0] != c2[0] ? 1 : 0`: %s" % why1, cfg=F.key, where=b.where())
     b = F.fn("compare::dist_checksum::distance_3")
     ctx.instance(r)
     if b is None:
@@ -223,6 +305,11 @@ def checksum_distance(ctx, r, F):
                 init_ok = inits[i] == C(0) and inits[s] == C(0)
                 ok = bound_ok and incs == want and ret_ok and init_ok
                 msg = "bound_ok=%s incs=%s ret_ok=%s init_ok=%s" % (bound_ok, {k: sym.fmt(v) for k, v in incs.items()}, ret_ok, init_ok)
+    if not ok and not loops:
+        # loop-free spelling (unrolled, `(a != b) as u32` terms, nested ifs ...): decide it as a function of the three comparisons
+        why3 = _bool_function_count(F, b, 3)
+        ok = why3 is None
+        msg = why3
     ctx.ob(r, ("distance_3", "shape"), ok,
            "distance_3 is not `sum over i in 0..3 of (c1[i] != c2[i])` (%s)" % msg, cfg=F.key, where=b.where())
 
